@@ -20,6 +20,11 @@ pub struct InputVariant {
 }
 
 impl InputVariant {
+    /// Tuple variants are only supported when they have exactly one field.
+    pub(crate) fn is_unsupported_tuple(&self) -> bool {
+        self.data.is_tuple() && self.data.len() != 1
+    }
+
     pub fn as_codegen_variant<'a>(&'a self, ty_ident: &'a syn::Ident) -> codegen::Variant<'a> {
         codegen::Variant {
             ty_ident,
